@@ -193,6 +193,20 @@ CLAIMED = {
             "agreement uses measured tolerances; observations outside the statement (cdf discounting, degenerate sigma) are not judged.",
             "Lean 4 proof (field algebra, Finset sums over the reals, HasDerivAt + FTC) + differential correspondence + property oracle",
             "DESIGN.md §4 C18"),
+    "C19": ("Lean 4 theorems over Q for every finitely additive mass, every axis and an abstract strictly monotone multiplicative exp: the coded "
+            "default intensity (diagonal minus pair tail integrals plus/minus the signed triple term) equals the mass of the union of the "
+            "default half-spaces (d = 1, 2, 3) and is increasing in each threshold; with thresholds on cell boundaries the summed rate of "
+            "the chain states having a coordinate below its threshold equals the coded intensity of the measure clipped to the truncation "
+            "box (d = 1, 2, 3, via C01's telescoping and block sums), instantiated on the credit chains as built (the credit grid puts "
+            "the threshold exactly on a cell boundary); survival, par spread, implied spread and implied threshold are the stated maps "
+            "and invert each other (eight-part statement, incl. the brentq bracket contract); default time = first jump below the threshold; "
+            "negation witnesses (wrong triple sign, off-boundary threshold). Correspondence/oracles on CTMCCredit chains (sym./asym., d "
+            "= 1..3): region rate vs box-clipped inclusion-exclusion at 1e-12*lambda, closed forms on truncated/untruncated models, "
+            "monotonicity, spread round trips, CDS payoff expectation.",
+            "Additivity of the concrete measures is a hypothesis (C09/C11/C12); the legs as expectations and brentq convergence are "
+            "oracle-checked; one recorded edge finding (threshold within h of the origin).",
+            "Lean 4 proof (finite additivity algebra, C01 block sums, field algebra over an abstract exp) + differential correspondence",
+            "DESIGN.md §4 C19"),
     "C20": ("Lean 4 theorems about the parameter objects as a state machine (constraint-checked setters, derived attributes, initialisation) "
             "for every family, abstract Gamma/power/sqrt, start object and operation list: no history stores a value violating a declared "
             "constraint and a rejected assignment leaves the object unchanged; after any history followed by initialisation the cached "
